@@ -38,6 +38,7 @@ type Config struct {
 	DupPct     int
 	MaxDelayMs int
 	Partition  bool
+	Reorder    bool // messages of one link and channel may overtake each other before GST
 	Crashes    bool
 	Skew       bool
 	PartSize   int
@@ -79,6 +80,7 @@ type Cluster struct {
 	catAt      time.Duration // last time a catalogue block was proposed
 	hostileAt  time.Duration // last time a hostile message was sent
 	recent     []recentMsg   // recent genuine traffic (material for mutation)
+	lastAt     map[[3]int]time.Duration // per (from,to,channel): last scheduled delivery (FIFO like one MConnection channel)
 	parts      [][]int // current partition (groups of node indices); nil = fully connected
 	stopReason string
 	trace      []string
@@ -200,6 +202,7 @@ func drawConfig(c *kernel.Ctx, mode Mode) Config {
 		cfg.MaxDelayMs = t.Range(cfg.TimeoutPropose, 3*cfg.TimeoutPropose)
 	}
 	cfg.Partition = t.Bool(1, 4)
+	cfg.Reorder = cfg.MaxDelayMs > 0 && t.Bool(1, 3)
 	cfg.Crashes = t.Bool(1, 4)
 	cfg.Skew = t.Bool(1, 2)
 	cfg.GST = time.Duration(t.Range(2, 40)) * time.Second
@@ -411,7 +414,21 @@ func (cl *Cluster) sendBytes(from, to int, chID byte, bz []byte, why string) {
 			cl.push(&event{at: cl.now + delay + time.Duration(1+cl.net.Int(200))*time.Millisecond, kind: evDeliver, node: to, from: from, chID: chID, msg: bz, desc: why + "(dup)"})
 		}
 	}
-	cl.push(&event{at: cl.now + delay, kind: evDeliver, node: to, from: from, chID: chID, msg: bz, desc: why})
+	at := cl.now + delay
+	if !(faulty && cfg.Reorder) {
+		// one connection channel delivers in order
+		if cl.lastAt == nil {
+			cl.lastAt = map[[3]int]time.Duration{}
+		}
+		k := [3]int{from, to, int(chID)}
+		if last, ok := cl.lastAt[k]; ok && at <= last {
+			at = last + time.Microsecond
+		}
+		cl.lastAt[k] = at
+	} else if delay > 20*time.Millisecond {
+		cl.c.Fault("reorder-possible")
+	}
+	cl.push(&event{at: at, kind: evDeliver, node: to, from: from, chID: chID, msg: bz, desc: why})
 }
 
 // flush drains the outboxes of all live honest nodes: every own message
